@@ -19,6 +19,8 @@ func init() {
 		Trusted: []string{"sync.Mutex/RWMutex provide mutual exclusion; sync/atomic operations are atomic; sync.Map is safe for concurrent use",
 			"net/http hands each handler invocation its own *http.Request and ResponseWriter"},
 		Mutants: []mutant{
+			{Name: "Dump sorts the shared target slice in place", File: "route/table.go", Old: "func (t Table) Dump() string {\n", New: "func (t Table) Dump() string {\n\tfor _, rs := range t {\n\t\tfor _, r := range rs {\n\t\t\tsort.Slice(r.Targets, func(i, j int) bool { return r.Targets[i].Weight > r.Targets[j].Weight })\n\t\t}\n\t}\n", Expect: "C06.S5"},
+
 			{Name: "remove mutex from GlobCache.Get", File: "route/glob_cache.go", Old: "\tc.mu.Lock()\n\tdefer c.mu.Unlock()\n", New: "", Expect: "C06.S1"},
 			{Name: "cache redirect URL on shared target again", File: "route/table.go", Old: "redirect := *target\n\t\t\t\tredirect.BuildRedirectURL(req.URL)\n\t\t\t\ttarget = &redirect", New: "target.BuildRedirectURL(req.URL)", Expect: "C06.S1"},
 			{Name: "plain r.total++", File: "route/picker.go", Old: "n := atomic.AddUint64(&r.total, 1) - 1", New: "n := r.total\n\tatomic.AddUint64(&r.total, 1)", Expect: "C06.S2"},
@@ -312,6 +314,9 @@ func writesThroughParam(c *Ctx, f *ssa.Function, k int, depth int, seen map[*ssa
 			if n := calleeName(cc); n == "builtin.delete" && len(cc.Args) > 0 && rootIs(cc.Args[0]) {
 				found = true
 			}
+			if mutatingExternal[calleeName(cc)] && len(cc.Args) > 0 && rootIs(stripIface(cc.Args[0])) {
+				found = true
+			}
 			if sc := cc.StaticCallee(); sc != nil && isRepoFn(sc) {
 				for ai, a := range cc.Args {
 					if rootIs(a) && writesThroughParam(c, unwrap(sc), ai, depth+1, seen) {
@@ -469,6 +474,9 @@ func writesVia(c *Ctx, j ssa.Instruction, v ssa.Value) (string, bool) {
 	if cc := callCommon(j); cc != nil {
 		if calleeName(cc) == "builtin.delete" && len(cc.Args) > 0 && rooted(cc.Args[0]) {
 			return "a delete on it", true
+		}
+		if mutatingExternal[calleeName(cc)] && len(cc.Args) > 0 && rooted(stripIface(cc.Args[0])) {
+			return "a call to " + calleeName(cc) + " (reorders/overwrites its argument in place)", true
 		}
 		if sc := cc.StaticCallee(); sc != nil && isRepoFn(sc) {
 			for ai, a := range cc.Args {
@@ -716,4 +724,11 @@ func divisorNonZero(b *ssa.BinOp) (bool, string) {
 		}
 	}
 	return false, "no dominating test shows " + shortPath(d) + " != 0"
+}
+
+// mutatingExternal: library functions that write through their first argument.
+var mutatingExternal = map[string]bool{
+	"sort.Slice": true, "sort.SliceStable": true, "sort.Sort": true, "sort.Stable": true, "sort.Strings": true, "sort.Ints": true,
+	"slices.Sort": true, "slices.SortFunc": true, "slices.SortStableFunc": true, "slices.Reverse": true,
+	"math/rand.Shuffle": false, "builtin.copy": true,
 }
